@@ -40,7 +40,7 @@ RULE = ('stream "doc": whole documents of the property\'s grammar (article/book,
         'substitution sites (``W\'\', `W\', W--W, W---W, W\'W) are placed in running text, in verbatim material and in mathematics. '
         'stream "small": every sequence of at most 3 (quick) / 4 (thorough) atoms of three alphabets (text, blank line, braces, \\bf, '
         'section/subsection, itemize/item, quote | tabular, &, \\\\, \\hline, $, \\[ \\], \\verb, \\footnote, \\mbox | text, blank line, '
-        'section, nested \\begin{document}, \\end{document}: up to 5 atoms) inside the document '
+        'section, nested \\begin{document}, \\end{document}: up to 4 / 5 atoms; the 5-atom sequence that reaches the break of Macro.paragraphs is in the corpus) inside the document '
         'body, ill-nested ones included (exhaustive). stream "malformed": random atom sequences over a larger alphabet and generated '
         'documents with a line deleted. A case is non-trivial when the parsed tree has a node at depth >= 3 below the document '
         'and the stream contains at least one item that a digest method absorbs into another node.')
@@ -433,9 +433,11 @@ def enum_atoms(alpha, maxlen):
 def streams(rng, tier, boost):
     out = []
     quick = tier == 'quick'
-    maxlen = (3 if quick else 4) + (1 if boost > 1 and quick else 0)
+    maxlen = 3 if quick else 4
+    # a changed pin (boost) quadruples the generated streams and makes the nested-document alphabet one atom longer; the two big
+    # alphabets stay at their size (one atom more is 13x the cases: the quick tier would take > 10 min)
     for alpha in (ALPHA_A, ALPHA_B, ALPHA_C):
-        for atoms in enum_atoms(alpha, 5 if alpha is ALPHA_C else maxlen):
+        for atoms in enum_atoms(alpha, (4 if quick and boost == 1 else 5) if alpha is ALPHA_C else maxlen):
             out.append(('small', dict(kind='atoms', atoms=atoms, close=True)))
     ndoc = (600 if quick else 5000) * boost
     for _ in range(ndoc):
